@@ -27,6 +27,15 @@ BY_CHECK = {
         "TLX.OnCode.C11.calculate_checksum_tcp_eq_rfc",
         "TLX.OnCode.C11.calculate_checksum_never_raises",
     ]),
+    "C15": ("TLX.Props.OnCode.C15", [
+        "TLX.OnCode.C15.prf_tls_12_eq_rfc",
+        "TLX.OnCode.C15.gen_master_secret_tls_12_eq_rfc",
+        "TLX.OnCode.C15.dev_tls_12_keys_eq_rfc",
+        "TLX.OnCode.C15.dev_tls_13_keys_eq_rfc",
+        "TLX.OnCode.C15.dev_initial_keys_eq_rfc",
+        "TLX.OnCode.C15.key_update_eq_rfc",
+        "TLX.OnCode.C15.dev_quic_keys_eq_rfc",
+    ]),
     "C14": ("TLX.Props.OnCode.C14", [
         "TLX.OnCode.C14.split_cipher_suite_sound_complete",
         "TLX.OnCode.C14.cipher_suites_keys",
